@@ -14,3 +14,5 @@ def check(ctx: Ctx) -> None:
     CT.r_parser_config(ctx, "R18.6")
     # "conversion failures are answered with a message": every argument text goes through its converter (only the sentinel object is exempt)
     CT.r_fresh_conversion(ctx, "R18.7")
+    # "concurrent sessions do not see each other": nothing of one connection is kept where the next connection overwrites it
+    CT.r_session_local(ctx, "R18.8")
